@@ -77,6 +77,31 @@ def ev(node, env, hooks=None):
         return v
     if isinstance(node, ast.IfExp):
         return E(node.body) if E(node.test) else E(node.orelse)
+    if isinstance(node, ast.JoinedStr):
+        out = ''
+        for v in node.values:
+            if isinstance(v, ast.Constant):
+                out += str(v.value)
+            elif isinstance(v, ast.FormattedValue):
+                val = E(v.value)
+                if not isinstance(val, (str, int)) or isinstance(val, bool):
+                    raise Unsupported('f-string field of type %s' % type(val).__name__)
+                if v.conversion == 114:
+                    val = repr(val)
+                elif v.conversion == 115:
+                    val = str(val)
+                elif v.conversion != -1:
+                    raise Unsupported('f-string conversion')
+                spec = ''
+                if v.format_spec is not None:
+                    spec = E(v.format_spec)
+                try:
+                    out += format(val, spec)
+                except (ValueError, TypeError) as e:
+                    raise Undecidable('format() fails: %s' % e)
+            else:
+                raise Unsupported('f-string part')
+        return out
     if isinstance(node, ast.Compare):
         left = E(node.left)
         for op, c in zip(node.ops, node.comparators):
